@@ -124,7 +124,7 @@ def digit_runs(tier="quick"):
         for k in (4, 5, 8, 9, 10, 11, 18, 19, 20, 21, 38, 39, 40, 100, 308, 309):
             vals += [10 ** k - 1, 10 ** k]
     runs = [str(v) for v in sorted(set(vals))]
-    runs.append("1234567890" * 4)                    # 40 digits
+    runs += ["1234567890" * 4, "1234567890" * 30]    # 40 and 300 digits
     if tier != "quick":
         runs += ["1234567890" * 10, "9" * 1000]      # far below the 4300 digits at which int() / str() give up
     runs += ["0" * 12 + "1", "0" * 20]               # long runs with a small value
